@@ -5,3 +5,4 @@ pub mod runner;
 pub mod sim;
 pub mod wire;
 pub mod peer;
+pub mod typed;
